@@ -179,6 +179,8 @@ impl BufferManager {
         size: usize,
         region: MemoryRegion,
     ) -> Option<MemoryGrant> {
+        #[cfg(grafeo_verif)]
+        crate::verif::yield_point("buf.alloc.load");
         // Check if we can allocate
         let current = self.allocated.load(Ordering::Relaxed);
 
@@ -193,6 +195,8 @@ impl BufferManager {
             }
         }
 
+        #[cfg(grafeo_verif)]
+        crate::verif::yield_point("buf.alloc.add");
         // Perform allocation
         self.allocated.fetch_add(size, Ordering::Relaxed);
         self.region_allocated[region.index()].fetch_add(size, Ordering::Relaxed);
